@@ -143,6 +143,14 @@ func c19ending(idx int) run.Result {
 			wait(serveWait)
 			return res
 		}
+		// the connection loop has not returned 10 s after its stream ended. If its goroutine is found RUNNING in three
+		// profiles in a row it is not waiting for anybody: it spins (look before the connection is released)
+		if w := run.SpinningServerGoroutine(); w != "" {
+			res.Violate("C19:goroutine-spins:"+ending, "the connection's goroutine terminates", "10 s after the "+ending+" the connection loop has not returned, and its goroutine was running in three goroutine profiles taken 150 ms apart:\n"+w, desc)
+			conn.Close()
+			wait(serveWait)
+			return res
+		}
 		res.Inconclusive = "watchdog"
 		conn.Close()
 		return res
